@@ -111,6 +111,16 @@ def run(fb, rep):
     if not recorders:
         rep.violation(R, "no-recorder", "Typecheck::refines no longer records the skolems it may refine in refined_variables", rf.where())
         return
+    # the registration must land in the scope of the *current* alternative: ScopedMap::entry(..).or_insert(..) is a no-op when an
+    # enclosing alternative already registered the variable, ScopedMap::insert always pushes into the current scope
+    for cl in [rf] + list(fb.closures_of(rf.id)):
+        for c in cl.calls():
+            if "scoped_map::ScopedMap" in c.res and c.res.rsplit("::", 1)[1] == "entry" and c.args and _is_refined_recv(cl, c.args[0], fb):
+                rep.violation(R, "recorded-in-outer-scope-only", "refines registers a refinable skolem with ScopedMap::entry(..).or_insert(..): when an enclosing match alternative already "
+                              "registered it the inner alternative does not, its refinement is not reset at the end of that alternative and leaks into the following alternatives "
+                              "of the nested match", c.where())
+            elif "scoped_map::ScopedMap" in c.res and c.res.rsplit("::", 1)[1] == "insert" and c.args and _is_refined_recv(cl, c.args[0], fb):
+                rep.ok(R, "refines registers the skolem in the current alternative's scope (ScopedMap::insert)")
     actual_srcs = flow.sources(rf, subs[0].args[-1], depth=12)
     actual_args = {s for s in actual_srcs if s[0] == "arg"}
     ok_deep = False
@@ -271,7 +281,19 @@ def r2j(fb, rep):
                 srcs |= flow.sources(b, a, depth=12)
             if flow.has_call(srcs, lambda n: n.endswith("TypeExt::row_iter")):
                 good = True
-        if good:
+        # a record *update* (`{ x = 1, .. base }`) also has the base's fields, which are not among the written ones: no shortcut then.
+        # The test is one conjunct of the condition that guards the take (read from the value flow of that switch: `&&` chains merge
+        # through a temporary, so plain dominance does not see the later conjuncts)
+        base_tested = False
+        for bb, srcs, true_t, false_t in flow.bool_switches(b):
+            if flow.has_call(srcs, lambda n: n.startswith("core::option::Option") and n.rsplit("::", 1)[-1] == "is_none") and flow.only_via_edge_threaded(b, t.bb, (bb, true_t)):
+                base_tested = True
+            if flow.has_call(srcs, lambda n: n.startswith("core::option::Option") and n.rsplit("::", 1)[-1] == "is_some") and flow.only_via_edge_threaded(b, t.bb, (bb, false_t)):
+                base_tested = True
+        if good and not base_tested:
+            rep.violation(R, "record-shortcut-ignores-base", "the record case drops the expected type without first requiring that there is no base record (`.. base`): "
+                          "`{ x = 1, .. r } : { x : Int }` is accepted although the value also has r's fields", t.where())
+        elif good:
             rep.ok(R, "record literal: expected type dropped only after an ordered comparison of the field names with row_iter() (%s)" % t.where())
         else:
             rep.violation(R, "record-shortcut-unordered", "the record case drops the expected type after comparing field names without regard to their order: "
@@ -312,3 +334,31 @@ def r2k(fb, rep):
     else:
         rep.violation(R, "resolved-variable-not-rewalked", "the occurs walker only descends into the children of the type a variable resolves to: when that type is itself a (root) "
                       "variable neither the occurs test nor the level adjustment is applied to it", finds[0].where())
+
+
+def r2m(fb, rep):
+    """R2m — one notion of record-field order in the unifier (contradiction rule).
+
+    The compiler reads the fields of a closed record by position (`GetOffset` with the index of the field *in the type*), so the
+    order of the fields in a type must be the layout of the value.  In the unifier's case for two value rows one branch enforces
+    this (`TypeError::FieldMismatch` when the i-th names differ: "HACK For non polymorphic records we need to care about field
+    order") while the branch taken as soon as one side has a row variable (`unify_rows`) matches the fields by name.  Both cannot
+    be right: a row that was matched by name can later be closed and is then read by position."""
+    R = "R2m"
+    rep.rule(R, "row unification treats field order the same way whether or not a row variable is involved")
+    bs = [b for bid, b in fb.bodies.items() if b.crate.name == "gluon_check" and bid.endswith("unify_type::do_zip_match")]
+    if len(bs) != 1:
+        rep.anchor_lost(R, "unify_type::do_zip_match")
+        return
+    b = bs[0]
+    pool = [b] + list(fb.closures_of(b.id))
+    ordered = [x for x in pool if flow.blocks_constructing(x, "gluon_check::unify_type::TypeError", "FieldMismatch")]
+    by_name = [c for x in pool for c in x.calls() if c.res.endswith("unify_type::unify_rows")]
+    if ordered and by_name:
+        rep.violation(R, "row-order-contradiction", "do_zip_match enforces field order for closed rows (FieldMismatch) but unifies rows by field name as soon as one side has a row "
+                      "variable (unify_rows): `id_x { y = 'a', x = 1 }` at `{ x : Int | r } -> { x : Int | r }` yields a value laid out [y, x] typed { x, y | r }, which "
+                      "can then be closed and read by position", by_name[0].where())
+    elif ordered or by_name:
+        rep.ok(R, "do_zip_match: a single treatment of field order (%s)" % ("positional" if ordered else "by name"))
+    else:
+        rep.anchor_lost(R, "row cases of do_zip_match")
